@@ -95,6 +95,17 @@ CATALOGUE = [
     ("styled-control-to-non-terminal", "C03", "console.py", "            if not_terminal and is_control:\n                continue\n            if style:", "            if style:"),
     ("traceback-lexer-guess-raises", "C17", "traceback.py", "        except ClassNotFound:\n            # no lexer for this file name: show the source without highlighting\n            lexer_name = \"text\"", "        except ZeroDivisionError:\n            lexer_name = \"text\""),
     ("live-stop-does-not-flush-redirect", "C10", "live.py", "                self._flush_redirected_io()\n", ""),
+    ("update-same-total-resets-finish", "C12", "progress.py", "            if total is not None and total != task.total:", "            if total is not None:"),
+    ("end-capture-takes-whole-buffer", "C15", "console.py", "        render_result = self._render_buffer(self._buffer[start:])\n        del self._buffer[start:]", "        render_result = self._render_buffer(self._buffer)\n        del self._buffer[:]"),
+    ("export-html-raw-href", "C15", "console.py", "            return escape(text).replace('\"', \"&quot;\")", "            return text"),
+    ("text-init-shares-spans-list", "C05", "text.py", "        self._spans: List[Span] = list(spans) if spans else []", "        self._spans: List[Span] = spans or []"),
+    ("render-span-beyond-end-unclamped", "C05", "text.py", "                (min(span.start, text_length), False, index)", "                (span.start, False, index)"),
+    ("flexible-column-minimum-one-cell", "C07", "table.py", "                    else max(1 + get_padding_width(column._index), _range.minimum)", "                    else 1 + get_padding_width(column._index)"),
+    ("add-row-validates-late", "C07", "table.py", "            if renderable is not None and not is_renderable(renderable):\n                raise errors.NotRenderableError(\n                    f\"unable to render {type(renderable).__name__}; a string or other renderable object is required\"\n                )\n        for index, renderable in enumerate(cell_renderables):", "            pass\n        for index, renderable in enumerate(cell_renderables):"),
+    ("whitespace-text-measures-whole-string", "C09", "text.py", "            return Measurement(max_text_width, max_text_width)", "            return Measurement(cell_len(text), cell_len(text))"),
+    ("titled-panel-always-four-cells", "C01", "panel.py", "        if title_text is None or width < 4:", "        if title_text is None:"),
+    ("decoder-reset-closes-link", "C19", "ansi.py", "                            _Style.null().update_link(link) if link else _Style.null()", "                            _Style.null()"),
+    ("fileproxy-without-lock", "C11", "file_proxy.py", "        with self.__lock:\n            buffer = self.__buffer\n            lines: List[str] = []", "        if True:\n            buffer = self.__buffer\n            lines: List[str] = []"),
     ("rgb-name-keeps-blanks", "C06", "color.py", "            return cls(\"\".join(color.split()), ColorType.TRUECOLOR, triplet=triplet)", "            return cls(color, ColorType.TRUECOLOR, triplet=triplet)"),
     ("percentage-not-clamped-low", "C12", "progress.py", "completed = min(100.0, max(0.0, completed))\n        return completed", "completed = min(100.0, completed)\n        return completed"),
     ("finished-time-overwritten", "C12", "progress.py", "            if task.completed >= task.total and task.finished_time is None:\n                task.finished_time = task.elapsed\n\n    def refresh", "            if task.completed >= task.total:\n                task.finished_time = task.elapsed\n\n    def refresh"),
